@@ -7,7 +7,6 @@ sys.path.insert(0, os.path.join(os.path.dirname(os.path.abspath(__file__)), ".."
 import vf
 
 EAGAIN, EPIPE, EBADF, ECANCELED = -11, -32, -9, -125
-KNOWN_SHUT = "shutdown_cb_before_nested_write_cb"
 
 
 # --------------------------------------------------------------------------
@@ -133,7 +132,8 @@ def gen_case(rng):
 
 
 FIXED = [
-    # the shutdown-callback order defect (write + shutdown issued from inside a write callback)
+    # write + shutdown issued from inside a write callback (shutdown callback came first before the
+    # repair of uv__stream_io, finding shutdown_cb_before_nested_write_cb; also first line of the corpus)
     "0 0 ; W1 R R ; W2 S | | ; ; settle2",
     # n lands exactly on every buffer boundary, trailing and leading zero-length buffers
     "0 0 ; W3,0,2,0 R R R R R R ; ; n3 n0 n2 n0 ; settle6",
@@ -169,12 +169,9 @@ def monitor(case, line):
     is_try = set()
     shut_ok_at = None        # uv_shutdown returned 0
     sys_shut = None
-    known = None
     last_chunk_id = -1
     in_try = None
     in_cb = False
-    nested = set()
-    nested_ok_this_step = False
     left_at_shut = []
 
     def outstanding_bytes():
@@ -187,13 +184,9 @@ def monitor(case, line):
         if k == "w":
             i, t = a.split(","); i = int(i)
             total[i] = int(t); acc[i] = 0
-            if in_cb:
-                nested.add(i)
         elif k == "r":
             i, c = a.split(":"); i, c = int(i), int(c)
             ret[i] = c
-            if c == 0 and i in nested:
-                nested_ok_this_step = True
             if shut_ok_at is not None and c not in (EPIPE, EBADF):
                 return (None, "uv_write after uv_shutdown returned %d, not UV_EPIPE" % c)
             if c != 0 and acc[i] != 0:
@@ -249,7 +242,6 @@ def monitor(case, line):
                 return (None, "write_queue_size is %d inside the callback of %d, unsent bytes of pending requests: %d" % (q, i, exp))
         elif k == "q":
             in_cb = False
-            nested_ok_this_step = False
             exp = outstanding_bytes()
             if int(a) != exp:
                 return (None, "write_queue_size is %d, unsent bytes of pending requests: %d" % (int(a), exp))
@@ -263,11 +255,7 @@ def monitor(case, line):
         elif k == "B":
             early = [i for i in total if ret.get(i) == 0 and i not in cbs and i not in is_try]
             in_cb = True
-            if early and nested_ok_this_step:
-                known = (KNOWN_SHUT, "shutdown callback ran before the callback of earlier write(s) %s that were "
-                                     "completed while write callbacks were running (uv_write from inside a write "
-                                     "callback)" % early)
-            elif early:
+            if early:
                 return (None, "shutdown callback ran before the callback of earlier write(s) %s" % early)
         elif k == "e":
             nbytes, eof, ok = [int(x) for x in a.split(",")]
@@ -288,7 +276,7 @@ def monitor(case, line):
             return (None, "requests %s never got their callback although the loop kept running (stalled queue)" % stuck[:5])
         if shut_ok_at is not None and not any(e[0] == "B" for e in trace):
             return (None, "uv_shutdown succeeded but its callback never ran")
-    return known
+    return None
 
 
 # --------------------------------------------------------------------------
